@@ -528,3 +528,77 @@ func liftToCaller(top *ssa.Function, at ssa.Instruction, depth int) []ssa.Instru
 	}
 	return out
 }
+
+// funcValueUsesInPkg: call instructions in h's package that receive h as a function value (a method value c.cleanup
+// or the function itself), e.g. once.Do(c.cleanup). The callee may run h; arguments do not line up with h's parameters.
+func funcValueUsesInPkg(h *ssa.Function) []ssa.CallInstruction {
+	var out []ssa.CallInstruction
+	if h.Pkg == nil {
+		return nil
+	}
+	isH := func(v ssa.Value) bool {
+		switch x := v.(type) {
+		case *ssa.Function:
+			return x == h
+		case *ssa.MakeClosure:
+			f, _ := x.Fn.(*ssa.Function)
+			if f == nil {
+				return false
+			}
+			if f == h {
+				return true
+			}
+			return f.Synthetic != "" && f.Object() != nil && f.Object() == h.Object()
+		case *ssa.ChangeType:
+			return false
+		}
+		return false
+	}
+	for _, c := range callersUniverse(h) {
+		for _, ci := range allCalls(c) {
+			for _, a := range ci.Common().Args {
+				if isH(a) {
+					out = append(out, ci)
+				}
+			}
+		}
+	}
+	return out
+}
+
+// callersUniverse: all source functions (with closures) of h's package.
+func callersUniverse(h *ssa.Function) []*ssa.Function {
+	var fns []*ssa.Function
+	for _, m := range h.Pkg.Members {
+		if f, ok := m.(*ssa.Function); ok {
+			fns = append(fns, f)
+		}
+	}
+	for _, m := range h.Pkg.Members {
+		if t, ok := m.(*ssa.Type); ok {
+			for _, recv := range []bool{false, true} {
+				typ := t.Type()
+				if recv {
+					typ = typesPointer(typ)
+				}
+				ms := h.Prog.MethodSets.MethodSet(typ)
+				for i := 0; i < ms.Len(); i++ {
+					if f := h.Prog.MethodValue(ms.At(i)); f != nil && f.Pkg == h.Pkg {
+						fns = append(fns, f)
+					}
+				}
+			}
+		}
+	}
+	seen := map[*ssa.Function]bool{}
+	var all []*ssa.Function
+	for _, f := range fns {
+		for _, g := range withAnon(f) {
+			if !seen[g] {
+				seen[g] = true
+				all = append(all, g)
+			}
+		}
+	}
+	return all
+}
